@@ -1364,14 +1364,14 @@ def run_shard(shard, rec):
                             pp = min(p, cap)
                     desc = gen_case(r, cell, pp, idx)
                     idx += 1
-                    t0 = time.time()
+                    t0 = time.process_time()
                     run_any(mp, rec, desc, hook)
-                    rec.maximum('seconds for one case [%s]' % cell, round(time.time() - t0, 2), {'prec': pp, 'rule': desc['rule']})
+                    rec.maximum('cpu seconds for one case [%s]' % cell, round(time.process_time() - t0, 2), {'prec': pp, 'rule': desc['rule']})
     finally:
         hook.uninstall()
     rec.event('get_nodes calls observed', hook.calls)
-    rec.maximum('seconds for one shard', round(time.time() - rec.t0, 1), {'shard': shard['shard'], 'precs': shard['precs']})
-    rec.note('shard seconds', [shard['shard'], round(time.time() - rec.t0, 1), shard['precs']], cap=20)
+    rec.maximum('cpu seconds for one shard', round(time.process_time(), 1), {'shard': shard['shard'], 'precs': shard['precs']})
+    rec.note('shard seconds', [shard['shard'], round(time.process_time(), 1), shard['precs']], cap=20)
 
 
 def required(agg, tier):
